@@ -202,3 +202,29 @@ func (dtlsr *DTLSR) VerifReceived() map[bpv7.EndpointID]bpv7.DTLSRPeerData {
 	d, _, _ := VerifDTLSRReceived(dtlsr)
 	return d
 }
+
+// VerifHandle processes one convergence status message exactly as Core.handler does, in the caller's goroutine
+// (schedule exploration runs the handler's work as a managed thread).
+func (c *Core) VerifHandle(cs cla.ConvergenceStatus) {
+	switch cs.MessageType {
+	case cla.ReceivedBundle:
+		crb := cs.Message.(cla.ConvergenceReceivedBundle)
+		bp := NewBundleDescriptorFromBundle(*crb.Bundle, c.store)
+		bp.Receiver = crb.Endpoint
+		_ = bp.Sync()
+		c.receive(bp)
+	case cla.PeerAppeared:
+		c.routing.ReportPeerAppeared(cs.Sender)
+		c.checkPendingBundles()
+	case cla.PeerDisappeared:
+		c.routing.ReportPeerDisappeared(cs.Sender)
+	}
+}
+
+// VerifProphetLive returns the live map of the node's own predictabilities (for identity tracking only).
+func VerifProphetLive(a Algorithm) map[bpv7.EndpointID]float64 {
+	if p, ok := VerifUnwrap(a).(*Prophet); ok {
+		return p.predictabilities
+	}
+	return nil
+}
